@@ -324,7 +324,7 @@ def _run_chunk(chunk):
 # share of a chunk taken by one case of an expensive kind (1 = a chunk of its own), so that the long cases
 # spread over the workers instead of queueing up in one
 HEAVY = {'XH': 1.0, 'WG': 1.0, 'XP': 1 / 6.0, 'XT': 0.1, 'ST': 0.02, 'A': 0.1, 'DC': 0.25, 'WIDE': 0.25, 'B': 0.25, 'MB': 0.25,
-         'HUGE': 0.5, 'CL': 0.25, 'CP': 0.25, 'CN': 0.25, 'ENV': 0.25}
+         'HUGE': 0.5, 'CL': 0.25, 'CP': 0.25, 'CN': 0.25, 'ENV': 0.25, 'RL': 0.25}
 
 
 def _chunks(it, size, warmup=32, warmup_size=6):
